@@ -9,6 +9,7 @@ import (
 	"image/color"
 	"os"
 	"sort"
+	"strconv"
 	"strings"
 	"time"
 
@@ -496,6 +497,7 @@ func runPlacements(w *harness.W, sess *vxh.Session, c plCase, sample bool) bool 
 		next := map[pl]bool{}
 		var order []pl
 		var overlarge []string
+		windows := map[string][4]int{} // kitty: cell of the placement -> window size, image cell size
 		keys := make([]string, 0, len(f.Place))
 		for k := range f.Place {
 			keys = append(keys, k)
@@ -512,6 +514,30 @@ func runPlacements(w *harness.W, sess *vxh.Session, c plCase, sample bool) bool 
 			win := root.New(pos[0], pos[1], wsz[0], wsz[1])
 			imgs[i].vi.Draw(win)
 			p := pl{i, pos[0], pos[1], imgs[i].w, imgs[i].h}
+			if c.Proto == "kitty" {
+				// a kitty placement shows the part of the image that lies
+				// inside the window
+				ww, wh := win.Size()
+				if ww <= 0 || wh <= 0 {
+					continue
+				}
+				if p.w > ww {
+					p.w = ww
+				}
+				if p.h > wh {
+					p.h = wh
+				}
+				if p.w < imgs[i].w || p.h < imgs[i].h {
+					w.Count("kitty_draws_into_a_window_smaller_than_the_image", 1)
+				}
+				wk := fmt.Sprintf("%d,%d", pos[0], pos[1])
+				if _, dup := windows[wk]; dup {
+					// two images at one cell: the commands cannot be told apart by position
+					windows[wk] = [4]int{1 << 20, 1 << 20, imgs[i].w, imgs[i].h}
+				} else {
+					windows[wk] = [4]int{ww, wh, imgs[i].w, imgs[i].h}
+				}
+			}
 			if c.Proto == "sixel" {
 				ww, wh := win.Size()
 				if imgs[i].w > ww || imgs[i].h > wh || imgs[i].w == 0 || imgs[i].h == 0 {
@@ -546,11 +572,30 @@ func runPlacements(w *harness.W, sess *vxh.Session, c plCase, sample bool) bool 
 		var seenPlace, seenDelete []string
 		uploads := map[int]int{}
 		var sixels []string
+		clipProblem := ""
 		sess.Con.With(func() {
 			for _, ev := range sess.Term.Gfx[g0:] {
 				switch ev.Action {
 				case "p":
 					seenPlace = append(seenPlace, fmt.Sprintf("id%d@%d,%d", ev.ID, ev.Col, ev.Row))
+					// cells covered: the displayed source rectangle (keys w, h
+					// in pixels) or the whole image
+					if wi, ok := windows[fmt.Sprintf("%d,%d", ev.Col, ev.Row)]; ok && clipProblem == "" {
+						cw, chh := wi[2], wi[3]
+						if v, err := strconv.Atoi(ev.Keys["w"]); err == nil && v > 0 && sess.Term.CellW > 0 {
+							if n := ceilDiv(v, sess.Term.CellW); n < cw {
+								cw = n
+							}
+						}
+						if v, err := strconv.Atoi(ev.Keys["h"]); err == nil && v > 0 && sess.Term.CellH > 0 {
+							if n := ceilDiv(v, sess.Term.CellH); n < chh {
+								chh = n
+							}
+						}
+						if cw > wi[0] || chh > wi[1] {
+							clipProblem = fmt.Sprintf("the placement of a %dx%d-cell kitty image at cell %d,%d covers %dx%d cells, its window is %dx%d", wi[2], wi[3], ev.Col, ev.Row, cw, chh, wi[0], wi[1])
+						}
+					}
 				case "d":
 					seenDelete = append(seenDelete, fmt.Sprintf("id%d/p%d", ev.ID, ev.Placement))
 				case "t", "T":
@@ -583,6 +628,10 @@ func runPlacements(w *harness.W, sess *vxh.Session, c plCase, sample bool) bool 
 		}
 		fail := func(key, what string) {
 			w.Violation("placements:"+c.Proto+":"+key, fmt.Sprintf("frame %d: %s", fi, what), c, what, "")
+		}
+		if clipProblem != "" {
+			fail("clip:placement-covers-cells-outside-the-window", clipProblem)
+			return true
 		}
 		if c.Proto == "sixel" {
 			var want []string
@@ -723,7 +772,7 @@ func genPlacements(r gen.R, proto string) plCase {
 				continue
 			}
 			f.Place[k] = v
-			if proto == "sixel" && r.Intn(3) == 0 {
+			if r.Intn(3) == 0 {
 				// a window smaller than the image, often in one dimension only
 				if f.Win == nil {
 					f.Win = map[string][2]int{}
